@@ -177,7 +177,7 @@ pub fn run_ni(job: &Value, scratch: &std::path::Path, w: &mut dyn Write) -> anyh
     let mut flat: Vec<(usize, Value)> = vec![];
     for (i, s) in steps.iter().enumerate() {
         let own_before: Vec<Vec<(Uuid, Uuid)>> = a.ledger.acc.clone();
-        let (evs, _) = a.step_multi(s, i);
+        let (evs, stop_a) = a.step_multi(s, i);
         let multi = evs.len() > 1 || s["op"] == "Overlap";
         for (sub, ev) in evs {
             if ev.get("toolerr").is_some() {
@@ -196,6 +196,9 @@ pub fn run_ni(job: &Value, scratch: &std::path::Path, w: &mut dyn Write) -> anyh
             let own = if multi { ci.map(|k| a.ledger.acc[k].clone()).unwrap_or_default() } else { ci.map(|k| own_before[k].clone()).unwrap_or_default() };
             rec.push((ci, arg, body, obs, own));
             flat.push((i, sub));
+        }
+        if stop_a {
+            break; // the server stopped answering (the unanswered request is recorded): nothing more to learn from this run
         }
     }
     a.set_day(0);
@@ -234,7 +237,7 @@ pub fn run_ni(job: &Value, scratch: &std::path::Path, w: &mut dyn Write) -> anyh
             if let Some(o) = s2.as_object_mut() {
                 o.remove("exp");
             }
-            let (ev, _) = b.step(&s2, i);
+            let (ev, stop_b) = b.step(&s2, i);
             if is_global {
                 continue;
             }
@@ -243,6 +246,9 @@ pub fn run_ni(job: &Value, scratch: &std::path::Path, w: &mut dyn Write) -> anyh
                 "op": s["op"], "a": obs_a, "b": obs_b});
             writeln!(w, "{}", pe)?;
             npairs += 1;
+            if stop_b {
+                break;
+            }
         }
         b.set_day(0);
         b.cleanup();
